@@ -26,8 +26,8 @@ import numpy as np
 from ..kit import cq, cql, cnat, cstr, cbool, clist, frac
 
 HDR = ("From Coq Require Import String.\nFrom Coq Require Import List ZArith QArith.\n"
-       "From NV.Lib Require Import RingMat C08Base Harness.\nFrom NV.Generated Require Import AffineClasses.\n"
-       "From NV.C08 Require Import Model Exec.\nOpen Scope string_scope.\n")
+       "From NV.Lib Require Import RingMat C08Base Harness.\nFrom NV.Generated Require Import AffineClasses AffineClip.\n"
+       "From NV.C08 Require Import Model ModelFold Clip Exec.\nOpen Scope string_scope.\n")
 
 CLASSES = ["Affine", "Affine2D", "Rigid", "Rigid2D", "Similarity", "Similarity2D"]
 TOL = 1e-9
@@ -1397,6 +1397,156 @@ def sec_generic(ck, e, rng):
     ck.section("generic", cases=N)
 
 
+def sec_clip(ck, e, T, rng):
+    """`threshold` and the translation column of `to_matrix44` on integer-valued floats (exact in double below 2^53):
+    property oracle on the implementation (range, identity inside, saturation outside) and the model clip_vec /
+    m44_translation built on the function translated from the source."""
+    from ..kit import czl, cz
+    am = e.am
+    md = float(am.MAX_DIST)
+    if md != int(md) or md < 0:
+        ck.fail("clip/max-dist-not-integral", "MAX_DIST = %r is not a non-negative integer value" % am.MAX_DIST, {"MAX_DIST": repr(am.MAX_DIST)})
+        return
+    MD = int(md)
+    T.add("max_dist_agrees %s" % cz(MD), "clip/model-vs-impl/MAX_DIST", {"MAX_DIST": MD}, exact=True)
+    N = ck.n(40, 600)
+    n = 0
+    for i in range(N):
+        th = [0, 1, 7, MD, int(rng.integers(0, 50)), int(rng.integers(0, 2 ** 40))][i % 6]
+        ln = int(rng.integers(0, 7)) if i % 5 else 3
+        kind = ["inside", "around", "far", "edge"][i % 4]
+        if kind == "inside":
+            x = rng.integers(-th, th + 1, ln)
+        elif kind == "around":
+            x = rng.integers(-2 * th - 3, 2 * th + 4, ln)
+        elif kind == "far":
+            x = rng.integers(-2 ** 50, 2 ** 50, ln)
+        else:
+            x = rng.choice(np.array([-th - 1, -th, -th + 1, 0, th - 1, th, th + 1], dtype=np.int64), ln)
+        x = np.asarray(x, dtype=np.int64)
+        xf_ = x.astype(float)
+        out = np.asarray(am.threshold(xf_, float(th)))
+        ck.count(("clip", th, tuple(x.tolist())), nontrivial=bool(np.any(np.abs(x) > th)), bucket="clip:%s" % kind)
+        n += 1
+        replay = {"x": x.tolist(), "th": th}
+        want = np.where(x > th, th, np.where(x < -th, -th, x)).astype(float)
+        if out.shape != xf_.shape or not np.array_equal(out, want):
+            sub = "outside" if out.shape == xf_.shape and np.array_equal(out[np.abs(x) <= th], xf_[np.abs(x) <= th]) else "inside"
+            ck.fail("threshold/not-the-clip-to-[-th,th]/%s-range" % sub, "threshold(%s, %s) = %s" % (x.tolist(), th, out.tolist()), replay)
+            if out.shape != xf_.shape or not np.all(out == np.round(out)):
+                continue
+        T.add("clip_agrees %s %s %s" % (cz(th), czl(x.tolist()), czl([int(v) for v in out.tolist()])),
+              "threshold/model-vs-impl", replay, show="clip_vec %s %s" % (cz(th), czl(x.tolist())), exact=True)
+    # to_matrix44: translation column, every size, translations inside / at / beyond MAX_DIST
+    M = ck.n(18, 180)
+    for i in range(M):
+        size = (6, 7, 12)[i % 3]
+        t = np.zeros(size)
+        if size == 7:
+            t[6] = 2.0
+        cand = np.array([0, 5, -5, MD - 1, MD, MD + 1, -MD + 1, -MD, -MD - 1, 3 * MD, -3 * MD, int(rng.integers(-2 * MD, 2 * MD))], dtype=np.int64)
+        tr = rng.choice(cand, 3) if i >= 3 else cand[[3 * i, 3 * i + 1, 3 * i + 2]]
+        t[0:3] = tr.astype(float)
+        t[3:6] = quarter_vec(rng, False)
+        ck.count(("clip44", size, tuple(tr.tolist())), nontrivial=bool(np.any(np.abs(tr) > MD)), bucket="clip:m44-size%d" % size)
+        n += 1
+        A = am.to_matrix44(t)
+        col = A[:3, 3]
+        replay = {"t": t.tolist()}
+        want = np.clip(tr, -MD, MD).astype(float)
+        if not np.array_equal(col, want):
+            ck.fail("to_matrix44/translation-not-clipped-at-MAX_DIST/%s" % ("beyond" if np.array_equal(col[np.abs(tr) <= MD], want[np.abs(tr) <= MD]) else "within"),
+                    "to_matrix44(%s)[:3, 3] = %s" % (t.tolist(), col.tolist()), replay)
+            if not np.all(col == np.round(col)):
+                continue
+        # Affine object: as_affine()/apply carry the clipped translation
+        if size == 12:
+            a = e.cls["Affine"](t.copy())
+            if not np.array_equal(a.as_affine()[:3, 3], want):
+                ck.fail("as_affine/translation-not-clipped-at-MAX_DIST", "Affine(%s).as_affine()[:3, 3] = %s" % (t.tolist(), a.as_affine()[:3, 3].tolist()), replay)
+        tz = [int(v) for v in tr.tolist()] + [0] * (size - 3)
+        T.add("m44_translation_agrees %s %s" % (czl(tz), czl([int(v) for v in col.tolist()])),
+              "to_matrix44/model-vs-impl/translation-clip", replay, show="m44_translation %s" % czl(tz), exact=True)
+    ck.section("clip", cases=n, MAX_DIST=MD)
+
+
+def sec_fold(ck, e, T, rng):
+    """Right-nested compose chains t1.compose(t2.compose(... z)) of 3..7 transforms of mixed classes: property oracle
+    (apply = sequential application; inverse of the chain maps back) and the model's compose_right fed with the SciPy
+    values recorded at every step; also the model's sequential application against the implementation's composed object."""
+    N = ck.n(10, 150)
+    done = 0
+    for i in range(N):
+        mode = "quarter" if i % 2 == 0 else "any"
+        k = int(rng.integers(2, 7))
+        ts = [make(e, rng, str(rng.choice(CLASSES)), mode) for _ in range(k + 1)]
+        names = [type(t).__name__ for t in ts]
+        x = pts(rng)
+        cur = ts[-1]
+        steps = []
+        devsum = 0.0
+        replay = {"chain": names, "vec12": [t._vec12.tolist() for t in ts], "direct": [bool(t.is_direct) for t in ts], "points": x.tolist()}
+        ck.count(("fold", tuple(names), tuple(ts[0]._vec12)), bucket="fold:len%d" % (k + 1))
+        for t in ts[-2::-1]:
+            begin(e)
+            Mt = t.as_affine() @ cur.as_affine()
+            try:
+                cur = t.compose(cur)
+            except Exception as ex:  # noqa
+                ck.fail("fold/compose-raises", "%s raised inside a compose chain: %s: %s" % (names, type(ex).__name__, ex), replay)
+                cur = None
+                break
+            devsum += m2v_dev(e)
+            steps.append((e.fx_owner.get(type(cur).__name__), Mt, e.proxy.svds[-1] if e.proxy.svds else None))
+        if cur is None:
+            continue
+        want = x
+        big = 1.0
+        for t in ts[::-1]:
+            want = t.apply(want)
+            big = max(big, float(np.max(np.abs(want))))
+        big = max(big, float(np.max(np.abs(cur.as_affine()))))
+        got = cur.apply(x)
+        if not close(got, want, 1e-8):
+            attribute(ck, e, devsum, maxerr(got, want), big * big, "fold/apply-differs-from-sequential/length-%d" % (k + 1),
+                      "compose chain %s differs from sequential application by %g" % (names, maxerr(got, want)), replay)
+        begin(e)
+        try:
+            ci = cur.inv()
+            back = ci.apply(want)
+            devi = m2v_dev(e)
+            if not close(back, x, 1e-8 * big):
+                attribute(ck, e, devsum + devi, maxerr(back, x), big * big, "fold/inverse-of-chain-does-not-map-back",
+                          "inverse of compose chain %s maps the transformed points back with error %g" % (names, maxerr(back, x)), replay)
+        except Exception as ex:  # noqa
+            ck.fail("fold/inv-raises", "inverse of compose chain %s raised %s: %s" % (names, type(ex).__name__, ex), replay)
+        done += 1
+        # model
+        for exact in ([True, False] if mode == "quarter" else [False]):
+            vws = [view(e, t, exact) for t in ts]
+            os_ = [oracle_for(e, ow, Mt, svd, exact) for (ow, Mt, svd) in steps][::-1]
+            if any(v is None for v in vws) or any(o is None for o in os_):
+                continue
+            tsl, zl, ol = clist([cxf(v) for v in vws[:-1]]), cxf(vws[-1]), clist(os_)
+            mt = "(qcompose_right %s %s %s)" % (tsl, zl, ol)
+            terms = obs_terms(e, mt, cur, exact, devsum)
+            if terms is None:
+                continue
+            # points are decimal floats: their images are compared at a tolerance in both modes
+            xs, gs = x, got
+            scale = max(1.0, big)
+            eps = cq(EPS * int(scale) * 10 + frac(8 * devsum * scale if devsum > 1e-10 else 0.0))
+            terms = terms + ["fold_pts_agree %s %s %s %s %s %s" % (eps, tsl, zl, ol, cmatq(xs), cmatq(gs)),
+                             "seq_pts_agree %s %s %s %s %s" % (eps, tsl, zl, cmatq(xs), cmatq(gs))]
+            for tm in terms:
+                T.add(tm, "fold/model-vs-impl", replay,
+                      show="option_map (fun c => (x_class c, x_direct c, qas_affine c)) %s" % mt, exact=exact)
+            break
+        else:
+            T.skipped += 1
+    ck.section("fold", chains=N, completed=done)
+
+
 class Terms:
     """Collects Coq boolean terms with the failure signature / replay to report when one is false."""
 
@@ -1431,6 +1581,8 @@ def run(ck):
     sec_stateful(ck, e, T, ck.rng("stateful"))
     sec_generic(ck, e, ck.rng("generic"))
     sec_pool(ck, e, ck.rng("pool"))
+    sec_clip(ck, e, T, ck.rng("clip"))
+    sec_fold(ck, e, T, ck.rng("fold"))
     ck.trust += [
         "oracle contracts (C08): spl.svd returns U, s, V with U diag(s) V = A (hypothesis of svd_sign_fix_reconstructs; the recorded "
         "values are threaded into the model); spl.inv returns a two-sided inverse (hypothesis of inv_apply); "
